@@ -133,18 +133,7 @@ Fixpoint log_match_fuel (fuel : nat) (m i : list ev) : bool :=
 
 Definition strip_consume (l : list ev) : list ev := filter (fun e => negb (is_consume e)) l.
 
+(* [model] and [impl] must both carry Consume markers (lock-step delivery) or
+   both not (the caller strips the model's) *)
 Definition log_match (model impl : list ev) : bool :=
-  let m := strip_consume model in
-  log_match_fuel (S (length m)) m impl.
-
-(* number of output items (messages, SSL reply byte) the model has produced
-   before each [Consume] and at the end: compared with the lock-step offsets
-   observed by the harness (converted from bytes to items) *)
-Definition ev_outlen (e : ev) : Z :=
-  match e with Out m => 1 | RawOut _ => 1 | _ => 0 end.
-Fixpoint consume_offsets (acc : Z) (l : list ev) : list Z :=
-  match l with
-  | [] => [acc]
-  | Consume :: r => acc :: consume_offsets acc r
-  | e :: r => consume_offsets (acc + ev_outlen e) r
-  end.
+  log_match_fuel (S (length model)) model impl.
